@@ -4,3 +4,5 @@ const std::vector<std::vector<std::string>>& entry_args();
 int c08_maxbits(int id);
 bool c08_arg_ok(int id, size_t i, const std::string& tok, int64_t v);
 Args c08_decode(Ctx&, Dec& d);
+int64_t entry_key(int id);
+int entry_from_key(int64_t k);
